@@ -123,6 +123,11 @@ pub struct Sim {
     pub world_ops: u64,
     pub running: bool,
     pub dirty: bool,
+    /// per client: tick -> number of mutate messages that left the server / were handed to the client / notifications
+    pub mut_sent: Vec<BTreeMap<u32, u32>>,
+    pub mut_delivered: Vec<BTreeMap<u32, u32>>,
+    pub tick_fired: Vec<BTreeMap<u32, u32>>,
+    pub tick_log_pos: Vec<usize>,
 }
 
 /// 8 secret bytes derived from the write id (high bit set in every byte), followed by padding.
@@ -200,6 +205,10 @@ impl Sim {
             world_ops: 0,
             running: true,
             dirty: false,
+            mut_sent: vec![BTreeMap::new(); n],
+            mut_delivered: vec![BTreeMap::new(); n],
+            tick_fired: vec![BTreeMap::new(); n],
+            tick_log_pos: vec![0; n],
         };
         sim.warm_up();
         sim
@@ -508,6 +517,10 @@ impl Sim {
         self.last_confirm[i].clear();
         self.snap_struct[i].clear();
         self.upd_sent[i].clear();
+        self.mut_sent[i].clear();
+        self.mut_delivered[i].clear();
+        self.tick_fired[i].clear();
+        self.tick_log_pos[i] = self.clients[i].app.world().resource::<TickLog>().0.len();
         for e in &mut self.semits {
             if e.pending {
                 e.must.remove(&i);
@@ -758,6 +771,14 @@ impl Sim {
                 self.op();
                 self.flags.insert("vis_change");
             }
+            Step::VisBurst { client, slot, ref pattern } => {
+                for &visible in pattern {
+                    self.step(&Step::Vis { client, slot, visible });
+                }
+                if pattern.len() >= 2 {
+                    self.flags.insert("vis_burst");
+                }
+            }
             Step::EmitS { .. } => {
                 if self.cfg.events {
                     self.squeue.push(st.clone());
@@ -933,6 +954,7 @@ impl Sim {
         let i = Self::chan_index(kind, idx, c.s2c[ch].len());
         let m = c.s2c[ch].remove(i).unwrap();
         if ch == 1 {
+            *self.mut_delivered[client].entry(m.tick).or_default() += 1;
             if i != 0 {
                 self.flags.insert("mut_reordered");
             }
@@ -1103,6 +1125,7 @@ impl Sim {
             if *ch == 1 {
                 self.repl_msgs[ci] += 1;
                 mut_count[ci] += 1;
+                *self.mut_sent[ci].entry(t).or_default() += 1;
             }
             oracle::check_sent(self, ci, *ch, msg);
         }
@@ -1174,6 +1197,9 @@ impl Sim {
             }
         }
         oracle::read_client_log(self, i);
+        if self.or.mutate_ticks {
+            oracle::read_tick_log(self, i);
+        }
         if self.fail.is_none() && (self.or.structure || self.or.values || self.or.adoption) {
             if let Err(f) = oracle::check_frame(self, i) {
                 self.fail = Some(f);
